@@ -260,14 +260,16 @@ UNITS["C10"] = [
 ]
 
 UNITS["C14"] = [
+    dict(kind="structural", name="c14_row_binding", check="updates_row_binding", file="crates/klukai-types/src/updates.rs", fn="match_changes_from_db_version",
+         trusted=["rusqlite returns columns in SELECT order"]),
     dict(kind="structural", name="c14_feeds", check="feeds_fed", file="crates/klukai-agent/src/agent/util.rs", fn="process_multiple_changes",
          sites=[("crates/klukai-agent/src/agent/util.rs", "process_multiple_changes", r"\btx\s*\.\s*commit\s*\("),
                 ("crates/klukai-agent/src/agent/util.rs", "process_fully_buffered_changes", r"\btx\s*\.\s*commit\s*\("),
                 ("crates/klukai-types/src/broadcast.rs", "broadcast_changes", None)],
          trusted=["broadcast_changes runs after the local transaction committed (unit c07_sequence); match_changes delivers to every attached matcher (channel delivery not decided)"]),
     dict(kind="verus", name="c14_updates", template="specs/c14_updates.vrs",
-         under_contract=["frag_candidate", "frag_trim", "frag_parity", "frag_impactful"],
-         vacuity=["frag_candidate", "frag_trim", "frag_parity", "frag_impactful"],
+         under_contract=["frag_candidate", "frag_trim", "frag_parity", "frag_notify_batch", "frag_impactful"],
+         vacuity=["frag_candidate", "frag_trim", "frag_parity", "frag_notify_batch", "frag_impactful"],
          assumptions=["IndexMap (ordered) stand-ins for the cl cache and the pending buffer; TableName opaque",
                       "monotonicity holds while a key stays in the 1000..2000-entry cache (eviction of the key ends the guarantee — part of the contract)",
                       "that both feeds are handed the committed changes on all three commit paths is decided by unit c14_feeds; NOT decided: channel delivery inside match_changes, unpack_columns of the pk (see C09)"]),
